@@ -409,12 +409,12 @@ def oracle(c, out):
     return (True, "")
 
 
-KNOWN = {}
-
-
 def classify_finding(c, out):
+    """F-C04-5 (open, resource): the process ran out of memory on a case that declares huge message lengths"""
     first = out.split(" ")[0]
-    return KNOWN.get(first)
+    if first.startswith("crash@") and first.endswith(":oom"):
+        return "F-C04-5"
+    return None
 
 
 def neighbors(c, rng):
@@ -439,17 +439,34 @@ def neighbors(c, rng):
 
 # --------------------------------------------------------------------------
 def _rss_probe(ctx, notes):
-    """peak RSS of lalprobe on the worst memory case the generator knows: 16 MiB declared on many chunk streams"""
-    rng_bytes = bytes(128)
+    """peak RSS of a fresh lalprobe process on the worst memory case the generator knows: one connection that declares a
+    16 MiB message on n chunk stream ids (139 bytes each) and then stays open"""
+    body = bytes(128)
     for n in (1, 64, 512):
-        many = b"".join(E.chunk_header(0, 64 + i, 0, 0xFFFFFF, E.T_VIDEO, 1) + rng_bytes for i in range(n))
+        many = b"".join(E.chunk_header(0, 64 + i, 0, 0xFFFFFF, E.T_VIDEO, 1) + body for i in range(n))
         l = line(data_tok(pub_prefix().bytes()) + "+" + data_tok(many))
         t0 = time.time()
-        p = subprocess.Popen([ctx["probe"]], stdin=subprocess.PIPE, stdout=subprocess.PIPE, stderr=subprocess.PIPE)
-        so, se = p.communicate((l + "\n").encode(), timeout=600)
-        ru = resource.getrusage(resource.RUSAGE_CHILDREN)
-        notes.append("memory (measured, not modelled): %d chunk streams each declaring a 16 MiB message: outcome %s, peak RSS of all "
-                     "children so far %.0f MiB, %.1f s" % (n, so.decode().split(" ")[0], ru.ru_maxrss / 1024.0, time.time() - t0))
+        p = subprocess.Popen([ctx["probe"]], stdin=subprocess.PIPE, stdout=subprocess.PIPE, stderr=subprocess.DEVNULL)
+        p.stdin.write((l + "\n").encode())
+        p.stdin.close()
+        so = p.stdout.read()
+        _, _, ru = os.wait4(p.pid, 0)
+        notes.append("memory (measured, not modelled): one connection declaring a 16 MiB message on %d chunk stream ids (%d bytes sent "
+                     "after publish): outcome %s, peak RSS of the process %.0f MiB (the session is run twice per case), %.1f s"
+                     % (n, len(many), so.decode().split(" ")[0], ru.ru_maxrss / 1024.0, time.time() - t0))
+
+
+def _rss_of(exe, lines):
+    p = subprocess.Popen([exe], stdin=subprocess.PIPE, stdout=subprocess.PIPE, stderr=subprocess.DEVNULL)
+    import threading
+    out = []
+    t = threading.Thread(target=lambda: out.append(p.stdout.read()))
+    t.start()
+    p.stdin.write(("\n".join(lines) + "\n").encode())
+    p.stdin.close()
+    t.join()
+    _, _, ru = os.wait4(p.pid, 0)
+    return ru.ru_maxrss / 1024.0, out[0].decode()
 
 
 def run(ctx, cases, cov, violations, known_hits, notes):
@@ -457,5 +474,11 @@ def run(ctx, cases, cov, violations, known_hits, notes):
     if ctx["tier"] == "thorough":
         try:
             _rss_probe(ctx, notes)
+            mem = [c.line for c in cases if c.cls in ("big-decl", "big", "chunk-size", "chunk-forms", "ack")]
+            t0 = time.time()
+            rss, _ = _rss_of(ctx["probe"], mem)
+            notes.append("memory (measured, not modelled): one lalprobe process running the %d memory-relevant generator cases in sequence "
+                         "(16 MiB declared on up to 400 chunk stream ids, Set Chunk Size 0xFFFFFFFF, one complete 16 MiB message, "
+                         "2.7 MB acknowledged stream; heap reuse between cases included): peak RSS %.0f MiB, %.1f s" % (len(mem), rss, time.time() - t0))
         except Exception as e:
             notes.append("memory probe failed: %r" % (e,))
